@@ -1,7 +1,270 @@
-(* Model of amqpstorm/channel0.py: negotiation and the channel-0 handshake. *)
+(* Model of amqpstorm/channel0.py: negotiation and the channel-0 handshake,
+   and of Connection.open's wait for the OPEN state.  Definitions only. *)
 From AV Require Import Lib.Base Gen.GenConsts.
 Local Open Scope Z_scope.
 
 (* Channel0._negotiate:  min(server_value, client_value) or client_value *)
 Definition negotiate (server client : Z) : Z :=
   if Z.min server client =? 0 then client else Z.min server client.
+
+(* ---- mechanism selection ---- *)
+Definition is_space (c : N) : bool :=
+  ((c =? 32) || (c =? 9) || (c =? 10) || (c =? 11) || (c =? 12) || (c =? 13))%N.
+
+(* Python str.split(): split on runs of whitespace, no empty tokens *)
+Fixpoint split_ws (l : bytes) (cur : bytes) : list bytes :=
+  match l with
+  | [] => match cur with [] => [] | _ => [rev cur] end
+  | c :: r => if is_space c
+              then match cur with [] => split_ws r [] | _ => rev cur :: split_ws r [] end
+              else split_ws r (c :: cur)
+  end.
+Definition tokens (offered : bytes) : list bytes := split_ws offered [].
+
+Definition mem_bytes (x : bytes) (l : list bytes) : bool := existsb (bytes_eqb x) l.
+
+Definition EXTERNAL : bytes := [69;88;84;69;82;78;65;76]%N.
+Definition PLAIN : bytes := [80;76;65;73;78]%N.
+
+Record hs_cfg := {
+  c_user : bytes; c_pass : bytes; c_vhost : bytes; c_heartbeat : Z
+}.
+
+(* Channel0._send_start_ok: (mechanism, response) or None = unsupported *)
+Definition start_ok (cfg : hs_cfg) (offered : bytes) : option (bytes * bytes) :=
+  let ts := tokens offered in
+  if mem_bytes EXTERNAL ts then Some (EXTERNAL, [0; 0]%N)
+  else if mem_bytes PLAIN ts then Some (PLAIN, (0%N :: c_user cfg) ++ (0%N :: c_pass cfg))
+  else None.
+
+(* ---- channel 0 as a state machine over the frames the broker sends ---- *)
+Inductive cst := S_CLOSED | S_CLOSING | S_OPENING | S_OPEN.
+Definition cst_eqb (a b : cst) : bool :=
+  match a, b with
+  | S_CLOSED, S_CLOSED | S_CLOSING, S_CLOSING | S_OPENING, S_OPENING | S_OPEN, S_OPEN => true
+  | _, _ => false
+  end.
+
+Inductive in_frame :=
+| IStart (mechs : bytes)
+| ITune (cmax fmax hb : Z)
+| IOpenOk
+| IClose (code : Z)
+| ICloseOk
+| IBlocked | IUnblocked | IHeartbeat | IOther.
+
+Inductive out_frame :=
+| OStartOk (mech resp : bytes)
+| OTuneOk (cmax fmax hb : Z)
+| OOpen (vhost : bytes).
+
+Record hs_state := {
+  h_state : cst;
+  h_out : list out_frame;          (* frames written, oldest first *)
+  h_errs : list (option Z);        (* connection.exceptions: reply codes *)
+  h_blocked : bool;
+  h_cmax : Z; h_fmax : Z
+}.
+
+Definition hs_init : hs_state :=
+  {| h_state := S_OPENING; h_out := []; h_errs := []; h_blocked := false;
+     h_cmax := MAX_CHANNELS; h_fmax := MAX_FRAME_SIZE |}.
+
+Definition ch0_step (cfg : hs_cfg) (s : hs_state) (f : in_frame) : hs_state :=
+  match f with
+  | IHeartbeat | IOther => s
+  | IClose code =>
+    {| h_state := S_CLOSED; h_out := h_out s;
+       h_errs := if code =? 200 then h_errs s else h_errs s ++ [Some code];
+       h_blocked := h_blocked s; h_cmax := h_cmax s; h_fmax := h_fmax s |}
+  | ICloseOk =>
+    {| h_state := S_CLOSED; h_out := h_out s; h_errs := h_errs s;
+       h_blocked := h_blocked s; h_cmax := h_cmax s; h_fmax := h_fmax s |}
+  | IBlocked =>
+    {| h_state := h_state s; h_out := h_out s; h_errs := h_errs s;
+       h_blocked := true; h_cmax := h_cmax s; h_fmax := h_fmax s |}
+  | IUnblocked =>
+    {| h_state := h_state s; h_out := h_out s; h_errs := h_errs s;
+       h_blocked := false; h_cmax := h_cmax s; h_fmax := h_fmax s |}
+  | IOpenOk =>
+    {| h_state := S_OPEN; h_out := h_out s; h_errs := h_errs s;
+       h_blocked := h_blocked s; h_cmax := h_cmax s; h_fmax := h_fmax s |}
+  | IStart mechs =>
+    match start_ok cfg mechs with
+    | Some (m, r) =>
+      {| h_state := h_state s; h_out := h_out s ++ [OStartOk m r]; h_errs := h_errs s;
+         h_blocked := h_blocked s; h_cmax := h_cmax s; h_fmax := h_fmax s |}
+    | None =>
+      {| h_state := h_state s; h_out := h_out s; h_errs := h_errs s ++ [None];
+         h_blocked := h_blocked s; h_cmax := h_cmax s; h_fmax := h_fmax s |}
+    end
+  | ITune cmax fmax hb =>
+    let c := negotiate cmax MAX_CHANNELS in
+    let f := negotiate fmax MAX_FRAME_SIZE in
+    {| h_state := h_state s;
+       h_out := h_out s ++ [OTuneOk c f (c_heartbeat cfg); OOpen (c_vhost cfg)];
+       h_errs := h_errs s; h_blocked := h_blocked s; h_cmax := c; h_fmax := f |}
+  end.
+
+Definition ch0_run (cfg : hs_cfg) (fs : list in_frame) : hs_state :=
+  fold_left (ch0_step cfg) fs hs_init.
+
+(* ---- Connection.open() against a scripted broker ---- *)
+Inductive refusal :=
+| NoRefusal
+| CloseAt (step : nat) (code : Z)   (* broker sends Connection.Close instead of step's frame *)
+| DropAt (step : nat)               (* broker drops the socket instead *)
+| SilentAt (step : nat).            (* broker says nothing any more *)
+
+Record open_in := {
+  oi_cfg : hs_cfg; oi_mechs : bytes; oi_cmax : Z; oi_fmax : Z; oi_hb : Z;
+  oi_refusal : refusal
+}.
+
+Inductive open_result := OpenOk | OpenErr (code : option Z) | OpenOther.
+
+Record open_obs := {
+  oo_out : list out_frame;       (* what the broker received after the protocol header *)
+  oo_result : open_result;
+  oo_is_open : bool;             (* connection.is_open after open() returned/raised *)
+  oo_late : bool                 (* took longer than the 30 s bound (+1 s slack) *)
+}.
+
+(* frames the broker sends, step by step, as long as the client keeps answering *)
+Definition broker_frame (i : open_in) (step : nat) : option in_frame :=
+  match oi_refusal i with
+  | CloseAt k code => if Nat.eqb k step then Some (IClose code) else
+                      if Nat.ltb k step then None else
+                      match step with
+                      | 0%nat => Some (IStart (oi_mechs i))
+                      | 1%nat => Some (ITune (oi_cmax i) (oi_fmax i) (oi_hb i))
+                      | _ => Some IOpenOk end
+  | DropAt k | SilentAt k =>
+                      if Nat.leb k step then None else
+                      match step with
+                      | 0%nat => Some (IStart (oi_mechs i))
+                      | 1%nat => Some (ITune (oi_cmax i) (oi_fmax i) (oi_hb i))
+                      | _ => Some IOpenOk end
+  | NoRefusal => match step with
+                 | 0%nat => Some (IStart (oi_mechs i))
+                 | 1%nat => Some (ITune (oi_cmax i) (oi_fmax i) (oi_hb i))
+                 | _ => Some IOpenOk end
+  end.
+
+(* the client answers step 0 with StartOk (or not at all), step 1 with TuneOk+Open *)
+Definition open_run (i : open_in) : hs_state :=
+  let cfg := oi_cfg i in
+  match broker_frame i 0 with
+  | None => hs_init
+  | Some f0 =>
+    let s0 := ch0_step cfg hs_init f0 in
+    match h_out s0 with
+    | [] => s0                                   (* nothing sent: broker has nothing to answer *)
+    | _ =>
+      match f0 with
+      | IStart _ =>
+        match broker_frame i 1 with
+        | None => s0
+        | Some f1 =>
+          let s1 := ch0_step cfg s0 f1 in
+          match f1 with
+          | ITune _ _ _ =>
+            match broker_frame i 2 with
+            | None => s1
+            | Some f2 => ch0_step cfg s1 f2
+            end
+          | _ => s1
+          end
+        end
+      | _ => s0
+      end
+    end
+  end.
+
+Definition open_model (i : open_in) : open_obs :=
+  let s := open_run i in
+  let res := match h_errs s with
+             | e :: _ => OpenErr e
+             | [] => match h_state s with
+                     | S_OPEN => OpenOk
+                     | _ => OpenErr None     (* 'connection closed' / timed out / transport *)
+                     end
+             end in
+  {| oo_out := h_out s; oo_result := res;
+     oo_is_open := match res with OpenOk => true | _ => false end;
+     oo_late := false |}.
+
+Definition out_frame_eqb (a b : out_frame) : bool :=
+  match a, b with
+  | OStartOk m r, OStartOk m' r' => bytes_eqb m m' && bytes_eqb r r'
+  | OTuneOk c f h, OTuneOk c' f' h' => (c =? c') && (f =? f') && (h =? h')
+  | OOpen v, OOpen v' => bytes_eqb v v'
+  | _, _ => false
+  end.
+Definition open_result_eqb (a b : open_result) : bool :=
+  match a, b with
+  | OpenOk, OpenOk | OpenOther, OpenOther => true
+  | OpenErr c, OpenErr c' => option_eqb Z.eqb c c'
+  | _, _ => false
+  end.
+Definition open_obs_eqb (a b : open_obs) : bool :=
+  list_eqb out_frame_eqb (oo_out a) (oo_out b) &&
+  open_result_eqb (oo_result a) (oo_result b) &&
+  Bool.eqb (oo_is_open a) (oo_is_open b) && Bool.eqb (oo_late a) (oo_late b).
+
+(* ---- the property on an observation ---- *)
+Definition refused (i : open_in) : bool :=
+  match oi_refusal i with NoRefusal => false | _ => true end.
+
+Definition start_ok_ok (i : open_in) (o : out_frame) : bool :=
+  match o with
+  | OStartOk m r =>
+    let ts := tokens (oi_mechs i) in
+    mem_bytes m ts &&
+    (bytes_eqb m EXTERNAL ||
+     (bytes_eqb m PLAIN && negb (mem_bytes EXTERNAL ts) &&
+      bytes_eqb r ((0%N :: c_user (oi_cfg i)) ++ (0%N :: c_pass (oi_cfg i)))))
+  | _ => false
+  end.
+
+Definition tune_ok_ok (i : open_in) (o : out_frame) : bool :=
+  match o with
+  | OTuneOk c f h =>
+    (0 <? c) && (c <=? 65535) && ((oi_cmax i =? 0) || (c <=? oi_cmax i)) &&
+    (0 <? f) && (f <=? 131072) && ((oi_fmax i =? 0) || (f <=? oi_fmax i)) &&
+    (h =? c_heartbeat (oi_cfg i))
+  | _ => false
+  end.
+
+Definition supported (i : open_in) : bool :=
+  let ts := tokens (oi_mechs i) in mem_bytes EXTERNAL ts || mem_bytes PLAIN ts.
+
+Definition open_prop_ok (i : open_in) (o : open_obs) : bool :=
+  negb (oo_late o) &&
+  (* every frame sent is well-formed w.r.t. the offer and the configuration, in order *)
+  match oo_out o with
+  | [] => true
+  | [a] => start_ok_ok i a
+  | [a; b; c] => start_ok_ok i a && tune_ok_ok i b &&
+                 match c with OOpen v => bytes_eqb v (c_vhost (oi_cfg i)) | _ => false end
+  | _ => false
+  end &&
+  (* no StartOk without a supported mechanism on offer *)
+  (supported i || match oo_out o with [] => true | _ => false end) &&
+  (* success is reported only on the conforming, unrefused path, and then it is *)
+  match oo_result o with
+  | OpenOk => negb (refused i) && supported i && oo_is_open o &&
+              (Nat.eqb (length (oo_out o)) 3)
+  | OpenErr code =>
+    negb (oo_is_open o) && (refused i || negb (supported i)) &&
+    match oi_refusal i with
+    | CloseAt k c =>
+      (* the broker's code is carried when it was actually delivered *)
+      if (Nat.eqb k 0 || supported i) then option_eqb Z.eqb code (Some c) || (c =? 200) else true
+    | _ => true
+    end
+  | OpenOther => false
+  end.
+
+Definition open_nontrivial (i : open_in) (o : open_obs) : bool :=
+  refused i || negb (supported i) || (2 <=? length (tokens (oi_mechs i)))%nat.
